@@ -1,11 +1,19 @@
 #!/bin/sh
-# usage: tools/try_mutant.sh <seed-id> <worktree> <check-id> [tier] ; stores the mutant under seeded/<seed-id>/ and runs one check against the mutated tree
-sid=$1; wt=$2; cid=$3; tier=${4:-quick}
+# usage: tools/try_mutant.sh <seed-id> <worktree> <check-id>... ; stores the mutant under seeded/<seed-id>/ and runs the given
+# checks (quick tier; "C05:thorough" selects the thorough tier) against the mutated tree (VERIF_REPO=<worktree>, /repo untouched)
+sid=$1; wt=$2; shift 2
 out=/verif/seeded/$sid; mkdir -p $out
 git -C $wt diff > $out/patch.diff
 [ -f $wt/MUTANT_demo.py ] && cp $wt/MUTANT_demo.py $out/demo.py
 [ -f $wt/MUTANT_meta.json ] && cp $wt/MUTANT_meta.json $out/meta.json
 if [ ! -f $out/demo_output.txt ]; then (cd $wt && /venv/bin/python MUTANT_demo.py > $out/demo_output.txt 2>&1; echo "demo exit=$?" >> $out/demo_output.txt); fi
 tail -1 $out/demo_output.txt
-cd /verif && VERIF_REPO=$wt ./check $cid --tier $tier --max-report 2 2>&1 | grep -v "^KNOWN" | tail -3 | cut -c1-420
-echo "exit=$?"
+cd /verif
+for spec in "$@"; do
+  cid=${spec%%:*}; tier=quick; case $spec in *:thorough) tier=thorough;; esac
+  VERIF_REPO=$wt ./check $cid --tier $tier --max-report 2 > /tmp/try_$sid.txt 2>&1; rc=$?
+  nv=$(grep -c "^VIOLATION" /tmp/try_$sid.txt)
+  line="check=$cid tier=$tier exit=$rc violation_lines=$nv $(grep -o 'new_violations=[0-9]*' /tmp/try_$sid.txt | tail -1)"
+  echo "$line"; grep "^VIOLATION" /tmp/try_$sid.txt | head -1 | cut -c1-330
+  grep -v "^check=$cid tier=$tier " $out/result.txt > /tmp/res_$sid.txt 2>/dev/null; echo "$line" >> /tmp/res_$sid.txt; mv /tmp/res_$sid.txt $out/result.txt
+done
